@@ -245,7 +245,7 @@ func runEngineWith(sc *scenario, e *env, cr engine.ClusterReader) observation {
 	e.sc, e.cur, e.cancel, e.tags = sc, -1, cancel, map[*event.ResourceStatus]int{}
 	var obs observation
 	pe := engine.PollerEngine{
-		Mapper:              mapper,
+		Mapper:              brokenKindMapper{mapper},
 		DefaultStatusReader: e,
 		StatusReaders:       []engine.StatusReader{},
 		ClusterReaderFactory: engine.ClusterReaderFactoryFunc(func(client.Reader, meta.RESTMapper, object.ObjMetadataSet) (engine.ClusterReader, error) {
@@ -449,6 +449,11 @@ func genScenario(r *rand.Rand, maxPolls int, sum *emit.Summary) *scenario {
 		sc.ids = append(sc.ids, sc.ids[r.Intn(n)])
 		sum.Count("engine:duplicate-id")
 	}
+	if r.Intn(6) == 0 { // a kind unknown to the REST mapper, anywhere in the list: polled like the others
+		at := r.Intn(len(sc.ids) + 1)
+		sc.ids = append(sc.ids[:at], append([]int{noMatchID}, sc.ids[at:]...)...)
+		sum.Count("engine:unknown-kind-identifier")
+	}
 	switch k := r.Intn(40); {
 	case k < 2:
 		e := genErr(r, r.Intn(3) == 0)
@@ -458,11 +463,16 @@ func genScenario(r *rand.Rand, maxPolls int, sum *emit.Summary) *scenario {
 		sc.ids = append(sc.ids, invalidID)
 		sc.pre, sc.preBy = &merr{kind: 2, code: 999}, "invalid-id"
 		sum.Count("engine:invalid-identifier")
+	case k < 4: // the REST mapper fails (not a NoMatch error) for one identifier, anywhere in the list
+		at := r.Intn(len(sc.ids) + 1)
+		sc.ids = append(sc.ids[:at], append([]int{mapperErrID}, sc.ids[at:]...)...)
+		sc.pre, sc.preBy = &merr{kind: 2, code: 997}, "invalid-id"
+		sum.Count("engine:mapper-error")
 	}
 	malformed := r.Intn(12) == 0
 	cur := map[int]mrs{}
 	for _, i := range sc.ids {
-		if i != invalidID {
+		if !preID(i) {
 			cur[i] = genRS(r, i)
 		}
 	}
@@ -470,7 +480,7 @@ func genScenario(r *rand.Rand, maxPolls int, sum *emit.Summary) *scenario {
 	for k := 0; k < np; k++ {
 		p := pollScript{reads: map[int]reading{}}
 		for _, i := range sc.ids {
-			if _, seen := p.reads[i]; seen || i == invalidID {
+			if _, seen := p.reads[i]; seen || preID(i) {
 				continue
 			}
 			if k > 0 {
@@ -525,7 +535,7 @@ func genScenario(r *rand.Rand, maxPolls int, sum *emit.Summary) *scenario {
 	if r.Intn(4) == 0 && (last.cancel != nil || last.sync != nil) {
 		extra := pollScript{reads: map[int]reading{}}
 		for _, i := range sc.ids {
-			if _, seen := extra.reads[i]; seen || i == invalidID {
+			if _, seen := extra.reads[i]; seen || preID(i) {
 				continue
 			}
 			c := genRS(r, i)
@@ -576,5 +586,14 @@ func corpus() []*scenario {
 		mk([]int{}, []mrs{}, []mrs{}),
 		// message only
 		mk([]int{3}, []mrs{leaf(3, 0, "1/2 ready", i64(1))}, []mrs{leaf(3, 0, "2/2 ready", i64(1))}, []mrs{leaf(3, 0, "2/2 ready", i64(1))}),
+		// a kind the REST mapper does not know (custom resource next to its CRD) is polled like any other
+		mk([]int{noMatchID, 2}, []mrs{leaf(noMatchID, 4, "Resource not found", nil), leaf(2, 0, "m", i64(1))},
+			[]mrs{leaf(noMatchID, 2, "ok", i64(1)), leaf(2, 0, "m", i64(1))}),
+		// the REST mapper fails otherwise: one error event, nothing polled
+		func() *scenario {
+			sc := mk([]int{2, mapperErrID}, []mrs{leaf(2, 0, "m", i64(1))})
+			sc.pre, sc.preBy = &merr{kind: 2, code: 997}, "invalid-id"
+			return sc
+		}(),
 	}
 }
